@@ -1,6 +1,6 @@
 """Generic relational translation-validation runner: compile variants with the real compiler, decide
 equivalence of the emitted code over all initial machine states with z3, replay every model concretely."""
-import os, sys, time, json, multiprocessing, collections, traceback
+import os, re, sys, time, json, multiprocessing, collections, traceback
 sys.path.insert(0, os.path.join(os.path.dirname(os.path.abspath(__file__)), '..', 'lib'))
 import common
 from common import compile_many, Report, EngineError
@@ -60,6 +60,9 @@ def _task(t):
             res['confirmed'] = ok
             res['detail'] = detail
             if not ok: res['verdict'] = ('bound_mismatch' if out.verdict == 'termdiff' else 'unconfirmed_' + out.verdict)
+            else:
+                try: res['sig'] = S.can_differ(va, vb, t['names'], events=o.get('events', False))
+                except Unsupported: res['sig'] = None
     except Unsupported as e:
         res.update(verdict='unsupported', msg=str(e))
     except Exception as e:
@@ -148,7 +151,7 @@ def relational(report, progs, variants, base_label, names_fn=None, opts=None, ke
                        differences=r['detail'].get('diffs'), termination=r['detail'].get('termination'),
                        code_base=common.Compiled(t['ja']).funcs, code_variant=common.Compiled(t['jb']).funcs)
             report.violation(key, '%s: %s vs %s differ on %s: %s' % (r['pid'], base_label, r['label'], r['detail'].get('regs'),
-                                                                     r['detail'].get('diffs') or r['detail'].get('termination')), rep)
+                                                                     r['detail'].get('diffs') or r['detail'].get('termination')), rep, sig=r.get('sig') or (['termination'] if r['verdict'] == 'termdiff' else None))
         elif r['verdict'].startswith('unconfirmed'):
             stats['disagreements_checked'] += 1
             report.inconc('model for %s@%s did not reproduce concretely (engine error)' % (r['pid'], r['label']))
@@ -219,6 +222,9 @@ def _task_ref(t):
             res.setdefault('details', {})[mode] = det
             if not det['confirmed']:
                 res['verdict'] = 'unconfirmed'; return res
+            if mode == 'ISO':
+                try: res['sig'] = S.can_differ(v, v, prog.gnames(), runs_a=ref)
+                except Unsupported: res['sig'] = None
         else:
             res['verdict'] = 'diff'
         res['verdicts'] = verdicts
@@ -275,7 +281,7 @@ def against_reference(report, progs, levels=(('O1', ['-O1']), ('O0', ['-O0'])), 
             d = r['details']
             rep = dict(kind='tv-reference', pid=r['pid'], level=r['label'], args=t['args'], source=t['src'], details=d, code={f: c.funcs[f]['lines'] for f in c.order})
             report.violation(key, '%s (%s): emitted code differs from the C meaning (both readings); ISO: %s %s' % (
-                r['pid'], r['label'], d['ISO'].get('regs'), d['ISO'].get('diffs') or d['ISO'].get('termination')), rep)
+                r['pid'], r['label'], d['ISO'].get('regs'), d['ISO'].get('diffs') or d['ISO'].get('termination')), rep, sig=r.get('sig'))
         elif r['verdict'] == 'unconfirmed':
             stats['disagreements_checked'] += 1
             report.inconc('model for %s@%s did not reproduce concretely (engine error): %s' % (r['pid'], r['label'], json.dumps(r.get('details'), default=str)[:300]))
@@ -283,7 +289,7 @@ def against_reference(report, progs, levels=(('O1', ['-O1']), ('O0', ['-O0'])), 
             report.inconc('engine error on %s@%s: %s' % (r['pid'], r['label'], r.get('msg', '')[-400:]))
         elif r['verdict'] == 'noasm':
             report.violation('noasm:%s@%s#%s' % (r['pid'], r['label'], code_hash(common.Compiled(t['j']))), '%s: emitted code does not assemble: %s' % (r['pid'], r.get('msg')),
-                             dict(kind='tv-noasm', pid=r['pid'], source=t['src'], msg=r.get('msg')))
+                             dict(kind='tv-noasm', pid=r['pid'], source=t['src'], msg=r.get('msg')), sig=['noasm: ' + re.sub(r'\d+', 'N', str(r.get('msg')))])
         if len(samples) < 8 and r['verdict'] == 'equal' and (r.get('queries') or 0) > 0:
             samples.append(dict(program=t['src'], level=r['label'], verdict='emitted code = C meaning (%s) for all initial states' % r.get('mode'),
                                 paths=r.get('paths'), queries=r.get('queries'), solver_s=r.get('solver_s')))
